@@ -981,7 +981,13 @@ func checkIPv6(data string) bool {
 	}
 	fragments := std.StringSplit(data, ":")
 	l = len(fragments)
-	if l < 3 || 8 < l {
+	if l == 9 {
+		// "::" at either end may stand for a single group: "a:b:c:d:e:f:g::".
+		if !(len(fragments[0]) == 0 && len(fragments[1]) == 0) &&
+			!(len(fragments[7]) == 0 && len(fragments[8]) == 0) {
+			return false
+		}
+	} else if l < 3 || 8 < l {
 		return false
 	}
 	var hasEmpty bool
